@@ -339,7 +339,7 @@ Proof.
     + apply live_pairs_model_NoDup. apply q_merged_NoDup.
     + apply NoDup_pairs_of_keys. apply live_pairs_spec_NoDup. exact W.
     + intros [k b]. rewrite (In_live_pairs_model M k b (q_merged_NoDup m1 o a p)), (In_live_pairs_spec _ a p k b W).
-      unfold M. rewrite (q_merged_lookup m1 o a p k Ok).
+      unfold M. rewrite (q_merged_lookup e m1 o a p k Ok).
       destruct (sim_cur e m1 s S1) as [M1 _]. rewrite <- M1, (cur_st_at m1 a o k (go_obj _ _ _ _ GO)).
       destruct (is_prefix p k).
       * tauto.
